@@ -340,6 +340,15 @@ def run(ctx):
                             if cst:
                                 cj.append((ctx.repo, "signature", order, chans, past, cst, lons, lats))
                                 cj.append((ctx.repo, "lonflip", order, chans, past, cst, lons, lats))
+                                # the wrapper must reflect the constant fields together with the dynamic ones
+                                cj.append((ctx.repo, "equator", order, chans, past, cst, lons, lats))
+                        if order == tuple(sorted(comb)) and (th or past == 1):
+                            # constant fields of every order-0 type present, two of the last one (to1d supports
+                            # constant scalars and pseudo-scalars only: a constant vector field is rejected by an assertion)
+                            k0 = [t for t in sorted(comb) if t[0] == 0]
+                            cst2 = [(t, 1 + (i == len(k0) - 1)) for i, t in enumerate(k0)]
+                            for what in ("equator", "lonflip", "signature") if cst2 else ():
+                                cj.append((ctx.repo, what, order, chans, past, cst2, lons, lats))
     for job, r in ctx.pairs(climate_worker, cj):
         cfg = r["cfg"]
         ev.obligation("climate", not r["problems"], tuple(str(v) for v in cfg.values()) if len(cfg["order"]) > 1 else None, sample=cfg if ev.obligations % 43 == 0 else None)
